@@ -102,6 +102,9 @@ type c07Case struct {
 	Kind2 int      `json:"kind2"`
 	J2    int      `json:"inject2_before_step"` // -1 = none
 	R0    int      `json:"r0,omitempty"`        // initial refresh register + 1 (0: the base vector's)
+	// Mid: the (first) request is not raised between two Steps but by a device from inside the first memory
+	// callback of Step J (the opcode fetch): the instruction executes, the request is accepted at the next boundary
+	Mid bool `json:"raised_from_the_opcode_fetch,omitempty"`
 	Salt  uint32   `json:"salt"`
 }
 
@@ -222,7 +225,18 @@ func (r *c07Runner) disturbed(cs *c07Case) ([]string, string) {
 	var d []string
 	quiet := 0
 	for j := 0; j < c07MaxSteps*3; j++ {
-		if j == cs.J || j == cs.J2 {
+		if cs.Mid && j == cs.J {
+			kk := k
+			fired := false
+			r.mem.Hook = func(bool, uint16) {
+				if !fired {
+					fired = true
+					pend = &pendingReq{obj: kk.mk(), kind: kk, j: j}
+					r.cpu.Interrupt = pend.obj
+					raised++
+				}
+			}
+		} else if j == cs.J || j == cs.J2 {
 			kk := k
 			if j == cs.J2 && j != cs.J {
 				kk = &r.kinds[cs.Kind2]
@@ -240,7 +254,16 @@ func (r *c07Runner) disturbed(cs *c07Case) ([]string, string) {
 		opAtPC := r.mem.Peek(prePC)
 		r.mem.ClearLog()
 		if p := c02Step(&r.cpu); p != nil {
+			r.mem.Hook = nil
 			return []string{fmt.Sprintf("panic at Step %d: %v", j, p)}, ""
+		}
+		r.mem.Hook = nil
+		if cs.Mid && j == cs.J {
+			had = nil // raised during this Step: nothing to judge before the next boundary
+			if r.cpu.Interrupt == nil && pend != nil {
+				// (a HALT or similar without any memory access cannot happen: every Step fetches)
+				d = append(d, fmt.Sprintf("the request a device raised from the opcode fetch of Step %d is gone after that Step", j))
+			}
 		}
 		r.lastWasEI = !(had != nil && r.cpu.Interrupt == nil) && opAtPC == 0xFB
 		if had != nil && r.cpu.Interrupt == nil {
@@ -353,7 +376,7 @@ func checkC07(c *Ctx) {
 		}
 	}
 	gen(nil)
-	c.Rule = fmt.Sprintf("all %d programs of 1..%d fragments over a %d-fragment alphabet (ALU, loads, stores, IX/IY, stack, CALL/RET, DJNZ loop, LDIR/LDDR/CPIR/OTIR/INIR, DI/EI sections, exchanges, jumps, NEG, LD A,I) + HALT x initial IFF {enabled, disabled} x every dynamic Step boundary j = 0..N+2 (two boundaries parked on HALT) x 8 request kinds (NMI, IM1, IM2 vec 40, IM2 vec FE with I=FF, IM0 RST 38, IM0 RST 10, IM0 CALL nn, IM1 with a data byte on the bus) x initial refresh register (quick 8 values, thorough all 256; bit 7 of R must come out as in the undisturbed run); thorough adds pairs j1<j2 of (kind, NMI|IM1) incl. requests raised inside the first handler. Oracle: interrupted vs undisturbed run (no model). Non-trivial = a request was raised at a boundary that exists in the run (all cases; counted), accepted ones counted separately.", len(progs), maxLen, len(frags))
+	c.Rule = fmt.Sprintf("all %d programs of 1..%d fragments over a %d-fragment alphabet (ALU, loads, stores, IX/IY, stack, CALL/RET, DJNZ loop, LDIR/LDDR/CPIR/OTIR/INIR, DI/EI sections, exchanges, jumps, NEG, LD A,I) + HALT x initial IFF {enabled, disabled} x every dynamic Step boundary j = 0..N+2 (two boundaries parked on HALT) x 8 request kinds (NMI, IM1, IM2 vec 40, IM2 vec FE with I=FF, IM0 RST 38, IM0 RST 10, IM0 CALL nn, IM1 with a data byte on the bus) x initial refresh register (quick 8 values, thorough all 256; bit 7 of R must come out as in the undisturbed run); every boundary again with the request raised by a device from inside the opcode fetch of Step j (accepted at the next boundary); thorough adds pairs j1<j2 of (kind, NMI|IM1) incl. requests raised inside the first handler. Oracle: interrupted vs undisturbed run (no model). Non-trivial = a request was raised at a boundary that exists in the run (all cases; counted), accepted ones counted separately.", len(progs), maxLen, len(frags))
 	c.Bound = fmt.Sprintf("programs <=%d fragments; 1 injection (thorough: 2)", maxLen)
 	bg := obsBackground(c)
 	// initial refresh-register values (+1; 0 = the base vector's): the counter wraps at different boundaries
@@ -403,6 +426,21 @@ func checkC07(c *Ctx) {
 								break
 							}
 						}
+					}
+					if cs.R0 == 0 {
+						cs.Mid = true
+						for j := 0; j <= r.base.steps; j++ {
+							cs.J, cs.J2 = j, -1
+							d, sig := r.disturbed(&cs)
+							ev++
+							if d != nil {
+								report(d, sig)
+								if sig == "" {
+									break
+								}
+							}
+						}
+						cs.Mid = false
 					}
 					if !c.Quick() && len(progs[pi]) <= 2 && cs.R0 == 0 {
 						// two injections: second kind NMI or IM1-like (same mode), any later dynamic step
